@@ -26,8 +26,8 @@ package kademlia
 //@ # the neighbourhood depth is a function of the connected set, the radius and the reachability
 //@ # filter (its meaning is C22); recomputed = equal to that function of the current set
 //@ spec func depthOf(s PSet, radius int, filter int) int
-//@ func recalcDepth
-//@   trusted
+//@ # (recalcDepth itself is under contract in verif_contracts_depth.go, C22)
+//@ extern func github.com/gauss-project/aurorafs/pkg/topology/kademlia.recalcDepth
 //@   requires peers != nil
 //@   ensures int(result) == depthOf(deref(peers), int(radius), ref(filter))
 //@   assigns nothing
@@ -191,3 +191,10 @@ package kademlia
 //@   loop 1 invariant forall a :: 0 <= a && a < len(out) ==> skippedIn(skipPeers, out[a]) && elig(k, out[a], filter.Reachable)
 //@   loop 1 invariant forall a, b :: 0 <= a && a < b && b < len(out) ==> out[a] != out[b]
 //@   loop 1 invariant ref(out) != ref(skipPeers)
+
+//@ # ---- C22: the depth follows every reachability change ---------------------------------------------
+//@ # (no freshness is assumed on entry: the postcondition holds only if the depth is recomputed)
+//@ func (*Kad).Reachable
+//@   property C22
+//@   requires k != nil && kadOK(k)
+//@   ensures depth-recomputed-on-every-status: depthFresh(k)
